@@ -123,6 +123,18 @@ func runC01(t *testing.T, rep *mc.Reporter) {
 			}
 		})
 	}
+	// ---- input.syncDelayTestKey configured: the stream carries the tool's own delay probe
+	enumSeqs([]string{"pr", "w1", "t2", "s1", "p"}, 2, func(seq []string) {
+		for _, cfg := range quickCfgs {
+			idx++
+			if idx%nshards != shard || budget.Expired() {
+				continue
+			}
+			cfg.Probe = true
+			scn := c01Scenario{Syms: append([]string{"s0"}, seq...), Cfg: cfg, Max: 1}
+			mc.RunScenario(rep, scn, 1, budget, func(ch *mc.Chooser) mc.Result { return c01Exec(t, scn, ch) })
+		}
+	})
 	// ---- preemption family: default feeding schedule, every wake-up statement of syncer/output.go
 	// (close, channel send, go, Unlock, Done, Close) reached is a point at which the running
 	// goroutine may be held back until all others block; all placements of up to pbound preemptions
